@@ -79,6 +79,15 @@ class Operands:
                 # further non-in-place operations on the same operands: serialisation, Dataset construction and use, comparison, unary ops
                 for x in ins:
                     for f in (lambda: x.to_json(), lambda: x.to_jsondict(), lambda: D.Dataset({'v': x}), lambda: D.Dataset({'v': x}).to_array(),
+                              # a Dataset built from the operand holds copies of its axes: relabelling / renaming the dataset's axes,
+                              # on a copy (inplace=False) or in place, leaves the operand alone
+                              lambda: [D.Dataset({'v': x}).set_axis(list(range(100, 100 + ax.size)), axis=ax.name, inplace=False) for ax in x.axes],
+                              lambda: D.Dataset({'v': x}).rename_axes(dict((ax.name, ax.name + '_r') for ax in x.axes), inplace=False),
+                              lambda: [D.Dataset({'v': x}).set_axis(list(range(100, 100 + ax.size)), axis=ax.name, inplace=True) for ax in x.axes],
+                              lambda: D.Dataset({'v': x}).rename_axes(dict((ax.name, ax.name + '_r') for ax in x.axes), inplace=True),
+                              lambda: (lambda ds: ds.axes[0].__setitem__(0, ds.axes[0].values[-1]))(D.Dataset({'v': x})) if x.ndim else None,
+                              lambda: (lambda ds: setattr(ds.axes[0], 'name', 'renamed_in_ds'))(D.Dataset({'v': x})) if x.ndim else None,
+                              lambda: (lambda ds: ds.axes[0].attrs.update(verif_added=3))(D.Dataset({'v': x})) if x.ndim else None,
                               # building a new array from the operand with metadata keywords (new key, and an existing key overwritten)
                               lambda: D.DimArray(x, verif_added=1), lambda: D.array(x, verif_added=2),
                               lambda: D.DimArray(x, **dict((k, 'overwritten') for k in list(x.attrs)[:1] if isinstance(k, str) and k.isidentifier())),
